@@ -1,7 +1,8 @@
 """Extra C02 sweeps added after seeded changes were missed: (1) PlanarYDecoder over every planar size (co-prime,
 non-co-prime, multiples, 2*gcd) with all single-qubit and random multi-qubit Y errors; (2) symmetry-MWPM decoders at
 extreme finite bias (eta given, or derived from the context model) on lattices with even and odd dimensions and
-errors with X / Z components."""
+errors with X / Z components; (3) the symmetry-MWPM decoders on the whole GRID eta x error_probability of the documented
+positive range (see run_grid)."""
 import numpy as np
 
 
@@ -88,3 +89,92 @@ def run(ctx):
                     rec = None if rec is None else np.array(rec)
                     if rec is None or rec.shape != (2 * n,) or not np.array_equal(letter_syndrome(S, rec % 2), s):
                         ctx.violation('syndrome', 'symmetry decoder recovery does not reproduce the syndrome at finite bias', rep)
+    run_grid(ctx)
+
+
+# ---- (3) symmetry decoders: bias x context probability, the whole documented positive range, on a grid --------------
+GRID_ETAS = (1e-300, 1e-200, 1e-100, 1e-10, 0.5, 1, 10, 1e10, 1e100, 1e300)
+GRID_PS = (5e-324, 1e-320, 1e-300, 1e-130, 1e-30, 1e-3, 0.1, 0.5, 0.9, 1 - 2 ** -53)
+
+
+def run_grid(ctx):
+    """'Decoding never raises whatever eta and whatever context probability': every pair (eta, p) of GRID_ETAS x GRID_PS -
+    smallest denormal to 1 - 2^-53, bias 1e-300 to 1e300, so also the corners where BOTH are extreme - for both
+    rotated SMWPM decoders, eta given as the decoder parameter or derived from a BiasedDepolarizingErrorModel(eta, 'Y')
+    context, on small codes with a few non-trivial syndromes.  All of the grid is inside the documented domain (eta a
+    positive finite number, p in (0, 1)).  Decided by the verified checker (engine dec) and the letter-level syndrome;
+    replay dicts are in the format of the main sweep."""
+    from harness import decoder_zoo as zoo
+    from harness.common import bitstr, rowsstr
+    rng = ctx.rng
+    specs = [(('rotatedplanar', (3, 3)), 'RotatedPlanarSMWPMDecoder', None), (('rotatedplanar', (4, 5)), 'RotatedPlanarSMWPMDecoder', None),
+             (('rotatedtoric', (2, 4)), 'RotatedToricSMWPMDecoder', False), (('rotatedtoric', (4, 4)), 'RotatedToricSMWPMDecoder', True)]
+    if not ctx.quick:
+        specs += [(('rotatedplanar', (4, 4)), 'RotatedPlanarSMWPMDecoder', None), (('rotatedplanar', (5, 5)), 'RotatedPlanarSMWPMDecoder', None),
+                  (('rotatedtoric', (4, 6)), 'RotatedToricSMWPMDecoder', False), (('rotatedtoric', (6, 4)), 'RotatedToricSMWPMDecoder', True)]
+    per_cell = ctx.pick(2, 5)
+    jobs, codes, mat_lines = [], {}, []
+    for cs, dname, itp in specs:
+        code = zoo.make_code(cs)
+        n = code.n_k_d[0]
+        codes[cs] = (code, n, 'G' + zoo.code_name(cs), zoo.stab_letter_codes(code.stabilizers))
+        mat_lines.append('mat %s %s' % (codes[cs][2], rowsstr(code.stabilizers)))
+        for eta in GRID_ETAS:
+            for given in (True, False):
+                arg = eta if given else None
+                ds = (dname, (arg,)) if itp is None else (dname, (itp, arg))
+                ems = ('DepolarizingErrorModel', ()) if given else ('BiasedDepolarizingErrorModel', (eta, 'Y'))
+                errs, ctxs = [], []
+                for p in GRID_PS:
+                    for _ in range(per_cell):
+                        e = np.zeros(2 * n, dtype=int)
+                        for q in rng.sample(range(n), rng.randint(1, 3)):
+                            pl = rng.randint(1, 3)
+                            e[q], e[n + q] = pl & 1, pl >> 1
+                        errs.append(bitstr(e))
+                        ctxs.append((ems, p))
+                jobs.append({'id': len(jobs), 'code': cs, 'decoder': ds, 'errors': errs, 'contexts': ctxs, 'eta': eta, 'given': given})
+    results = zoo.run_pool(zoo.run_decode_job, jobs)
+    req, look = [], {}
+    for job, res in zip(jobs, results):
+        code, n, cname, _ = codes[job['code']]
+        for k, r in enumerate(res['results']):
+            if r.get('recovery') is not None:
+                look[(job['id'], k)] = len(req)
+                req.append('rok %s %d %s %s' % (cname, n, r['recovery'] or '-', r['syndrome']))
+    out = zoo.model_parallel(ctx, 'dec', req, prefix=mat_lines)
+    for job, res in zip(jobs, results):
+        cs, ds = job['code'], job['decoder']
+        code, n, cname, scodes = codes[cs]
+        dn = zoo.dec_name(ds)
+        if res.get('ctor_error'):
+            ctx.violation('constructor', 'decoder constructor raised on a positive finite eta: ' + res['ctor_error'], {'decoder': list(ds)})
+            continue
+        for k, r in enumerate(res['results']):
+            es = job['errors'][k]
+            ems, p = job['contexts'][k]
+            e = np.array([int(c) for c in es])
+            rep = {'check': 'c02_grid', 'code': [cs[0], list(cs[1])], 'decoder': [ds[0], list(ds[1])], 'error': zoo.bsf_to_letters(e),
+                   'error_model': [ems[0], list(ems[1])], 'error_probability': p, 'syndrome': r['syndrome'], 'outcome': r['outcome'],
+                   'app_context': False, 'eta': job['eta'], 'eta_given_as': 'decoder parameter' if job['given'] else 'context model bias'}
+            ctx.count(('smwpm-grid', cname, job['eta'], job['given'], p, es), '1' in r['syndrome'], 'smwpm-grid/%s' % ds[0],
+                      {'code': cname[1:], 'decoder': dn, 'context': '%s%r p=%r' % (ems[0], tuple(ems[1]), p), 'error': rep['error']}
+                      if (not job['given'] and p < 1e-100 and len(ctx.samples) < 5) else None)
+            ctx.hist['smwpm-grid/eta=%r' % job['eta']] += 1
+            where = '%s on %s at eta=%r (%s), error_probability=%r' % (dn, cname[1:], job['eta'], rep['eta_given_as'], p)
+            if r['outcome'].startswith('ERR'):
+                ctx.violation('raised', where + ' raised: ' + r['outcome'], rep)
+                continue
+            if r['outcome'] == 'None' or r.get('recovery') is None:
+                ctx.violation('none' if r['outcome'] == 'None' else 'shape', where + ' returned %s' % (r['outcome'] if r['outcome'] == 'None'
+                              else 'an array of shape %s dtype %s' % (r.get('shape'), r.get('dtype'))), rep)
+                continue
+            rec = r['recovery']
+            v = out[look[(job['id'], k)]]
+            ok = len(rec) == 2 * n and set(rec) <= {'0', '1'} and \
+                bitstr(zoo.letter_syndrome(scodes, np.array([int(c) for c in rec]))) == r['syndrome']
+            ctx.cmp('recovery_ok vs independent letter-level', '%s %s %s' % (cname, rec, r['syndrome']), '1' if ok else '0', v)
+            if v != '1' or not ok:
+                ctx.violation('syndrome', where + ': recovery does not reproduce the syndrome (verified checker recovery_ok = %s)' % v,
+                              dict(rep, recovery=rec))
+    ctx.extra['smwpm_grid_decodes'] = sum(len(j['errors']) for j in jobs)
